@@ -451,6 +451,119 @@ def case_single(ctx, rng, idx):
     ctx.tally("reconfigured-single-runs")
 
 
+def case_app(ctx, rng, idx):
+    """In situ: the repository's own AWGN simulators (apps/awgn_modulators) run
+    unmodified; only their two extension points are wrapped to record events.
+    The recorded history must be the documented loop, and the stored results the
+    exact sums of what the repetitions returned."""
+    import sys
+    import importlib
+    from pyphysim.modulators import fundamental as FU
+    mname, mk = [("PSK(4)", lambda: FU.PSK(4)), ("QAM(16)", lambda: FU.QAM(16)),
+                 ("BPSK", FU.BPSK), ("PSK(8)", lambda: FU.PSK(8)), ("QAM(64)", lambda: FU.QAM(64)),
+                 ("QPSK", FU.QPSK)][idx % 6]
+    clsname = "VerySimplePskSimulationRunner[%s]" % mname
+    argv = sys.argv
+    sys.argv = [argv[0]]
+    try:
+        # (simulate_qam.py / simulate_bpsk.py only swap the modulator of this class;
+        #  simulate_qam.py itself needs pylab's namespace, so the swap is done here)
+        mod = importlib.import_module("apps.awgn_modulators.simulate_psk")
+        okc, r = ctx.call("in-situ-history", mod.VerySimplePskSimulationRunner,
+                          cls="constructor", detail={"app": clsname})
+        if okc:
+            r.modulator = mk()
+    finally:
+        sys.argv = argv
+    if not okc:
+        return
+    r.update_progress_function_style = None
+    r.NSymbs = int(rng.integers(5, 80))
+    r.rep_max = int(rng.choice([1, 2, 5, 20, 60]))
+    snr = rng.choice(np.arange(-5, 25), size=int(rng.integers(1, 6)), replace=False)
+    snr = snr.astype(float) if rng.random() < 0.5 else snr
+    r.params.add("SNR", snr)
+    r.params.set_unpack_parameter("SNR")
+    r.max_bit_errors = float(rng.uniform(0.002, 0.3)) * r.NSymbs * r.rep_max
+    np.random.seed(int(rng.integers(0, 2 ** 31)))
+    tag = {"app": clsname, "NSymbs": r.NSymbs, "rep_max": r.rep_max, "SNR": snr,
+           "max_bit_errors": r.max_bit_errors}
+    events = []
+    orun, okg = r._run_simulation, r._keep_going
+
+    def run(cp):
+        sr = orun(cp)
+        events.append(("run", cp.unpack_index, float(cp["SNR"]),
+                       int(sr["bit_errors"][-1].get_result()), int(sr["num_bits"][-1].get_result()),
+                       int(sr["symbol_errors"][-1].get_result()),
+                       int(sr["num_symbols"][-1].get_result())))
+        return sr
+
+    def kg(cp, res, rep):
+        a = okg(cp, res, rep)
+        events.append(("kg", cp.unpack_index, int(rep), int(res["bit_errors"][-1].get_result()),
+                       bool(a)))
+        return a
+    r._run_simulation, r._keep_going = run, kg
+    okc, _ = ctx.call("in-situ-history", r.simulate, cls="simulate", detail=tag)
+    if not okc:
+        return
+    names = sorted([float(x) for x in snr]) if False else [float(x) for x in snr]
+    byvar = {}
+    order = []
+    for e in events:
+        if e[1] not in byvar:
+            order.append(e[1])
+        byvar.setdefault(e[1], []).append(e)
+    ctx.ev("in-situ-history", order == list(range(len(snr))), cls="variation-order",
+           detail={**tag, "order": order})
+    res = r.results
+    for v in range(len(snr)):
+        ev = byvar.get(v, [])
+        runs, ok, why = 0, True, None
+        cum = [0, 0, 0, 0]
+        expect = "run"
+        for e in ev:
+            if e[0] != expect and not (expect == "done"):
+                ok, why = False, "expected %s got %s after %d runs" % (expect, e[0], runs)
+                break
+            if expect == "done":
+                ok, why = False, "events after the loop ended"
+                break
+            if e[0] == "run":
+                if e[2] != names[v]:
+                    ok, why = False, "SNR %r for variation %d" % (e[2], v)
+                    break
+                runs += 1
+                cum = [cum[i] + e[3 + i] for i in range(4)]
+                expect = "kg"
+            else:
+                if e[2] != runs or e[3] != cum[0] or e[4] != (cum[0] < r.max_bit_errors):
+                    ok, why = False, "keep_going saw rep=%d errors=%d answer=%s, history says " \
+                        "rep=%d errors=%d" % (e[2], e[3], e[4], runs, cum[0])
+                    break
+                expect = "run" if (e[4] and runs < r.rep_max) else "done"
+        if ok and expect != "done":
+            ok, why = False, "loop left open (%s pending)" % expect
+        ctx.ev("in-situ-history", ok, cls="documented-loop",
+               detail=lambda: {**tag, "variation": v, "why": why, "events": ev[:12]})
+        if not ok or len(res["ber"]) <= v:
+            continue
+        got = (res["bit_errors"][v].get_result(), res["num_bits"][v].get_result(),
+               res["symbol_errors"][v].get_result(), res["num_symbols"][v].get_result(),
+               res["ber"][v].get_result(), res["ser"][v].get_result(), r.runned_reps[v])
+        want = (cum[0], cum[1], cum[2], cum[3], cum[0] / cum[1], cum[2] / cum[3], runs)
+        ctx.ev("in-situ-history", got == want, cls="stored-sums",
+               detail=lambda: {**tag, "variation": v, "got": got, "want": want})
+        okc, vals = ctx.call("in-situ-history", res.get_result_values_list, "ber",
+                             {"SNR": snr[v]}, cls="lookup", detail=tag)
+        if okc:
+            ctx.ev("in-situ-history", list(vals) == [want[4]], cls="lookup",
+                   detail={**tag, "variation": v, "got": vals, "want": want[4]})
+    ctx.sig("app", clsname, len(snr), r.rep_max, tuple(min(len(byvar.get(v, [])) // 2, 3)
+                                                      for v in range(len(snr))))
+
+
 def classify(w):
     return None
 
@@ -458,6 +571,8 @@ def classify(w):
 GENS = {
     "runner": Gen(case_runner, 2500, 300000),
     "single": Gen(case_single, 600, 80000),
+    "app": Gen(case_app, 90, 9000),
 }
 MIN_EVALS = {"call-trace": 1500, "stored-results": 5000, "repetition-counts": 1500,
-             "skip-counts": 3000, "lookup-by-fixed-values": 2000, "single-variation": 500}
+             "skip-counts": 3000, "lookup-by-fixed-values": 2000, "single-variation": 500,
+             "in-situ-history": 300}
